@@ -61,6 +61,11 @@ func drawC04(r *rng.R, stats map[string]int, mu *sync.Mutex) *c04Case {
 				cs.Origin += "/" + tw
 			}
 		}
+		if r.Chance(1, 2) {
+			// declaration order of the rules is part of the input (production
+			// indices, item order inside states)
+			cs.G.PermuteRules(r.Perm(len(cs.G.Rules)))
+		}
 		if r.Chance(1, 8) && !strings.HasPrefix(cs.Origin, "expr") {
 			specgen.AddErrors(r, cs.G)
 			cs.Origin += "+error"
